@@ -448,6 +448,112 @@ def check_copy_family(run, case):
             return
 
 
+def check_host_setup(run, case):
+    """the way a host typically configures several engines: one options
+    dict, updated and passed to create() for each engine (and cleared
+    afterwards).  Every engine finalises by the options it was created
+    with."""
+    text = case['text']
+    factory = common.make_factory()
+    opts = {'yaql.limitIterators': 1000}
+    engines = []
+    for t2l, s2l in case['order']:
+        opts['yaql.convertTuplesToLists'] = t2l
+        opts['yaql.convertSetsToLists'] = s2l
+        engines.append(((t2l, s2l), factory.create(options=opts)))
+    if case.get('clear'):
+        opts.clear()
+    run.case(case, True, fp=(text, tuple(map(tuple, case['order'])),
+                             bool(case.get('clear'))), cls='host-setup')
+    for (t2l, s2l), eng in engines:
+        ctx1, ctx2 = common.child(), common.child()
+        for c in (ctx1, ctx2):
+            for k, v in _data().items():
+                c[k] = yutils.convert_input_data(v)
+        try:
+            got = ('ok', eng(text).evaluate(context=ctx1))
+        except Exception as e:   # noqa
+            got = ('exc', type(e).__name__)
+        try:
+            exp = ('ok', _engine(t2l, s2l)(text).evaluate(context=ctx2))
+        except Exception as e:   # noqa
+            exp = ('exc', type(e).__name__)
+        if got[0] != exp[0] or (got[0] == 'ok' and (
+                common.snapshot(got[1]) != common.snapshot(exp[1]))):
+            run.violate('engine-finalises-with-other-options', case,
+                        '%s on the engine created with tuples->lists %s, '
+                        'sets->lists %s from a dict the host went on to '
+                        'change: %r; expected %r' % (
+                            text, t2l, s2l, got[1], exp[1]),
+                        input_class='host-setup')
+            return
+
+
+def _own_context():
+    """a host's own context made by hand: variables and a function, no
+    library, no finalizer"""
+    from yaql.language import contexts
+    own = contexts.Context()
+    own['$own'] = yutils.convert_input_data([1, (2, 3), {'a': {4}}])
+    own.register_function(lambda: (1, frozenset([2])), name='ownFn')
+    return own
+
+
+COMPOSITE_TEXTS = ['$own', 'ownFn()', '[ownFn(), $own]', '$', '$s',
+                   '[1, 2].toSet()', '[$d, $s]', 'dict(a => $own[1])',
+                   '$own.select($)', 'set($own[0], 5)']
+
+
+def check_composite(run, case):
+    """contexts composed from a standard context and a hand-made one
+    (LinkedContext / MultiContext) finalise like the standard context,
+    whatever was evaluated on the hand-made context alone before"""
+    from yaql.language import contexts
+    text = COMPOSITE_TEXTS[case['text'] % len(COMPOSITE_TEXTS)]
+    t2l, s2l = case['opts']
+    eng = _engine(t2l, s2l)
+    own = _own_context()
+    for pre in case.get('pre', []):
+        try:
+            eng(COMPOSITE_TEXTS[pre % 3]).evaluate(
+                context=own if case.get('pre_direct') else
+                own.create_child_context())
+        except Exception:   # noqa
+            pass
+    std = common.child()
+    for k, v in _data().items():
+        std[k] = yutils.convert_input_data(v)
+    how = case['how']
+    if how == 'linked':
+        ctx = contexts.LinkedContext(std, own)
+    elif how == 'linked-child':
+        ctx = contexts.LinkedContext(std, own.create_child_context())
+    elif how == 'multi':
+        ctx = contexts.MultiContext([own, std])
+    else:
+        ctx = contexts.MultiContext([own.create_child_context(),
+                                     std.create_child_context()])
+    run.case(case, bool(case.get('pre')), cls=['composite', 'how=' + how])
+    try:
+        got = ('ok', eng(text).evaluate(context=ctx.create_child_context()))
+    except Exception as e:   # noqa
+        got = ('exc', e)
+    if got[0] != 'ok':
+        run.violate('finalisation-raises', case,
+                    '%s on a %s context raised %s: %s' % (
+                        text, how, type(got[1]).__name__, got[1]),
+                    exc=got[1], input_class='composite:' + how)
+        return
+    bad = bad_nodes(got[1], t2l, s2l)
+    if bad:
+        run.violate('non-plain-node-in-result', case,
+                    '%s on a %s context (tuples->lists %s, sets->lists %s; '
+                    'the hand-made member had evaluated %d expressions '
+                    'alone before) -> %r: non-plain nodes %r' % (
+                        text, how, t2l, s2l, len(case.get('pre', [])),
+                        got[1], bad[:3]), input_class='composite:' + how)
+
+
 _FAMILY = {}
 
 
@@ -459,6 +565,7 @@ def _family_base():
 
 
 REPLAY = {'copy-family': check_copy_family,
+          'host-setup': check_host_setup, 'composite': check_composite,
           'roundtrip': check_roundtrip, 'kind': check_kind,
           'interface-fn': check_interface_fn}
 
@@ -484,7 +591,35 @@ def copy_cases(draw):
             'fresh_base': draw(st.booleans())}
 
 
+@st.composite
+def composite_cases(draw):
+    return {'kind': 'composite',
+            'text': draw(st.integers(0, len(COMPOSITE_TEXTS) - 1)),
+            'opts': list(draw(st.sampled_from(OPTS))),
+            'how': draw(st.sampled_from(['linked', 'linked-child', 'multi',
+                                         'multi-children'])),
+            'pre': draw(st.lists(st.integers(0, 2), max_size=2)),
+            'pre_direct': draw(st.booleans())}
+
+
+@st.composite
+def setup_cases(draw):
+    return {'kind': 'host-setup', 'text': draw(st.sampled_from(
+        ['[$d, $s]', '[1, [2, 3]]', '$', '[1, 2].toSet()', '{a => [1]}'])),
+        'order': [list(o) for o in draw(st.permutations(OPTS))][
+            :draw(st.integers(2, 3))],
+        'clear': draw(st.booleans())}
+
+
 def _shard(run, which, n, shard):
+    if which == 'composite':
+        run.hyp('composite', composite_cases(),
+                lambda c: check_composite(run, c), n, shard=shard)
+        return
+    if which == 'setup':
+        run.hyp('host-setup', setup_cases(),
+                lambda c: check_host_setup(run, c), n, shard=shard)
+        return
     if which == 'copy':
         run.hyp('copy-family', copy_cases(),
                 lambda c: check_copy_family(run, c), n, shard=shard)
@@ -529,4 +664,7 @@ def run(run):
             for i in range(k)]
     jobs += [('kinds', (30000 if full else 2400) // k, i) for i in range(k)]
     jobs += [('copy', (4000 if full else 400) // 4, i) for i in range(4)]
+    jobs += [('composite', (8000 if full else 600) // 4, i)
+             for i in range(4)]
+    jobs += [('setup', (160 if full else 16) // 4, i) for i in range(4)]
     run.shards(_shard, jobs)
